@@ -620,6 +620,7 @@ def items(src_root, tier):
     out += [('array', t) for t in array_elem_types()]
     out += [('msg', q) for q in sorted(LAYOUT['messages'])]
     out += [('obf', p) for p in ('rotate_key', 'encode', 'decode', 'connection')]
+    out += [('framing-relies', None)]
     return out
 
 
@@ -639,6 +640,15 @@ def run_item(src_root, item, tier):
         elif kind == 'obf':
             from contracts import C01_obf
             C01_obf.prove(src_root, ex, res, arg)
+        elif kind == 'framing-relies':
+            # what serialize() produces comes back through a connection only if the receiving side reads a frame of EVERY announced length
+            # (a distributed message with a one-byte code and no fields has length prefix 1): the framing contract of _read_message
+            # (C02._read_message.*) is discharged here as well
+            from contracts import C02
+            C02.prove_framing(src_root, ex)
+            for ob in ex.obligations:
+                if ob.name.startswith('C02._read_message.'):
+                    ob.name = 'C01.conn.receives-every-length.' + ob.name[len('C02._read_message.'):]
     except Unsupported as e:
         res.errors.append(f'{kind}:{arg}: unsupported: {e}')
     res.add(ex.obligations)
